@@ -158,6 +158,28 @@ def directed_cases(rng, tier):
             lines += ['sys.w 0xFF0F 0', 'map.snap', 'map.wd %d %d' % (a, rng.choice([0x08, 0x40, 0x78, rng.randrange(256)]))]
         cases.append(('d%d_%s' % (n, name), lines))
         n += 1
+    for rep in range(3 if tier == 'quick' else 20):
+        lines = [ctor]
+        for stat in (0x20, 0x08, 0x40, 0x10, 0x78):
+            lines += ['sys.w 0xFF45 0', 'sys.hw %d' % rng.randrange(1, 3000), 'sys.w 0xFF40 %d' % rng.choice([0x11, 0x00]), 'sys.w 0xFF41 %d' % stat,
+                      'sys.w 0xFF0F 0', 'map.snap', 'map.wd 0xFF40 %d' % rng.choice([0x91, 0x80, 0xE3]), 'sys.hw %d' % rng.randrange(1, 3000),
+                      'sys.w 0xFF0F 0', 'map.snap', 'map.wd 0xFF40 %d' % rng.choice([0x11, 0x00, 0x63])]
+        cases.append(('d%d_%s' % (n, name), lines))
+        n += 1
+    # what a write leaves behind in state that is read only later: sound power cycle with lengths loaded, then triggers
+    for rep in range(2 if tier == 'quick' else 12):
+        lines = [ctor, 'sys.w 0xFF26 0x80', 'sys.w 0xFF24 0x77', 'sys.w 0xFF25 0xFF']
+        t = [rng.randrange(1, 64), rng.randrange(1, 64), rng.randrange(1, 256), rng.randrange(1, 64)]
+        for a, v in zip((0xFF11, 0xFF16, 0xFF1B, 0xFF20), t):
+            lines.append('sys.w %d %d' % (a, v))
+        lines += ['sys.hw %d' % rng.randrange(1, 9000), 'map.snap', 'map.wd 0xFF26 0x00', 'sys.hw %d' % rng.randrange(1, 9000), 'map.snap', 'map.wd 0xFF26 0x80']
+        for a in (0xFF12, 0xFF17, 0xFF21):
+            lines.append('sys.w %d 0xF0' % a)
+        lines += ['sys.w 0xFF1A 0x80', 'sys.w 0xFF14 0xC0', 'sys.w 0xFF19 0xC0', 'sys.w 0xFF1E 0xC0', 'sys.w 0xFF23 0xC0']
+        for _ in range(40):
+            lines += ['sys.hw 8192', 'sys.r 0xFF26']
+        cases.append(('d%d_%s' % (n, name), lines))
+        n += 1
     regs = {1: (0xFF11, 0xFF12, 0xFF14), 2: (0xFF16, 0xFF17, 0xFF19), 3: (0xFF1B, 0xFF1A, 0xFF1E), 4: (0xFF20, 0xFF21, 0xFF23)}
     for ch in (1, 2, 3, 4):
         for phase in (range(8) if tier != 'quick' else [rng.randrange(8), rng.randrange(8)]):
